@@ -118,6 +118,8 @@ def _common_claims(env, f, n, lower, upper, tag):
         env.claim(tag + ":strictly_monotone_inside", implies(interior, _sgn_ok(env, di, upper, lower)))
     else:
         env.claim(tag + ":monotone_on_[0,n]", di * (upper - lower) >= -1e-7 * abs(upper - lower))
+        if 0 < i < n:
+            env.claim(tag + ":strictly_monotone_inside", di * (upper - lower) > 0)
     return (f0, d0, dd0), (fn, dn, ddn), (fi, di, ddi)
 
 
